@@ -78,6 +78,13 @@ CHECKS = {
               "torque-free trajectories; all seven Arm-level dynamics methods compared with the mr functions on arms configured "
               "through the public setters (6R test arm and random chains)."),
         ref="DESIGN.md section 5 / C08"),
+    "C09": dict(
+        technique="runtime monitoring: geometric oracle (plate-fixed joint coordinates) + round-trip monitor over generated platforms/poses",
+        text=("640 (quick) / 6.4e3 (thorough) generated platforms (JSON, parametric and direct constructors, both handedness values, "
+              "random bases; optionally moved and/or re-spun at neutral): published joints vs the parametric description, IK lengths "
+              "vs joint distances on arbitrary plate-pose pairs, invariance under a common rigid motion, and for every in-workspace "
+              "pose accepted without corrective action the FK round trip with both solvers from the neutral pose (1e-3 h)."),
+        ref="DESIGN.md section 5 / C09"),
     "C12": dict(
         technique="runtime monitoring: reference-oracle monitor (own adjoint) over generated frames/operands",
         text=("Frame-change group action, recorded frame, pairing invariance, p x f moment and zero moment at the "
